@@ -270,6 +270,15 @@ let run_case (x : sx) : Stdlib.String.t =
                   let want = if q = "0" then dot_path cps else key_path (n_of_int (int_of_string q)) cps in
                   Buffer.add_string b (if want = path then "\tKP=1" else "\tKP=0")
               | _ -> ());
+             (match getf "keyc" with
+              | [] -> ()
+              | steps ->
+                  let cp l = List.map (function A c -> n_of_int (int_of_string c) | _ -> failwith "bad cp") l in
+                  let ks = List.map (function
+                    | L (A "0" :: k) -> SDot (cp k)
+                    | L (A q :: k) -> SBr (n_of_int (int_of_string q), cp k)
+                    | _ -> failwith "bad step") steps in
+                  Buffer.add_string b (if chain_path ks = path then "\tKP=1" else "\tKP=0"));
              if not (wf_node t) then Buffer.add_string b "\tWF=0";
              if not (acc_clean t) then Buffer.add_string b "\tWF=0";
              if not (ctext_ok t) then Buffer.add_string b "\tWF=0";
